@@ -59,11 +59,14 @@ pub struct Config {
     /// the key whose two hashes land on the same shard (secondary = next shard, by the distinctness fix-up) comes
     /// first in the key list instead of last
     pub fixup_first: bool,
+    /// every directory's `.kismet_temp` starts with two-hour-old debris named like the keys (files a writer staged under
+    /// the key's own name long ago and never published): reclaiming debris is no reason for a cached entry to go
+    pub stale_temp: bool,
 }
 
 impl Config {
     fn label(&self) -> String {
-        format!("{:?}/{:?}/h{}/k{}{}", self.front, self.cap, self.handles, self.nkeys, if self.fixup_first { "/fixup-key-first" } else { "" })
+        format!("{:?}/{:?}/h{}/k{}{}", self.front, self.cap, self.handles, self.nkeys, if self.fixup_first { "/fixup-key-first" } else if self.stale_temp { "/stale-temp-files-named-like-keys" } else { "" })
     }
     fn nshards(&self) -> usize {
         match self.front {
@@ -312,6 +315,18 @@ fn open_live(cfg: &Config) -> Live {
             let m = day - (10 - i as i128) * 60_000_000_000;
             world::plant(&dir.join(&k.name), &val.bytes(), 0o444, m - 120_000_000_000, m);
             model.insert(k.name.clone(), val);
+        }
+    }
+    if cfg.stale_temp {
+        let stale = run::base_time_ns() as i128 - 7_200_000_000_000;
+        let mut homes = vec![w.clone()];
+        if cfg.nshards() > 1 {
+            homes = (0..cfg.nshards()).map(|s| w.join(ops::shard_dir_name(s))).collect();
+        }
+        for h in homes {
+            for k in cfg.keys() {
+                world::plant(&h.join(".kismet_temp").join(&k.name), b"staged long ago", 0o600, stale, stale);
+            }
         }
     }
     Live { sc, w, ro, app, handles, model, nsrc: 0 }
@@ -729,7 +744,9 @@ fn step(live: &mut Live, cfg: &Config, sym: &Sym, rep: &mut Report) -> Vec<(Stri
             let _ = std::fs::remove_file(s);
         });
     }
-    if after.iter().any(|(k, n)| n.kind == 'f' && k.contains(".kismet_temp/")) {
+    // (debris planted by the configuration stays until a maintenance of its directory reclaims it)
+    let planted_debris = |k: &str| cfg.stale_temp && keys.iter().any(|key| k.ends_with(&format!(".kismet_temp/{}", key.name)));
+    if after.iter().any(|(k, n)| n.kind == 'f' && k.contains(".kismet_temp/") && !planted_debris(k)) {
         bad.push(("temp-leak".into(), "a temporary file was left behind".into()));
     }
     // --- the read-only level of the stacked front-end is never modified (C15's monitors)
@@ -802,7 +819,7 @@ fn replay_history(cfg: &Config, hist: &[Sym], rep: &mut Report) -> (Live, Vec<(S
 
 fn case_json(cfg: &Config, hist: &[Sym]) -> Value {
     json!({
-        "config": {"front": format!("{:?}", cfg.front), "cap": format!("{:?}", cfg.cap), "handles": cfg.handles, "nkeys": cfg.nkeys, "fixup_first": cfg.fixup_first},
+        "config": {"front": format!("{:?}", cfg.front), "cap": format!("{:?}", cfg.cap), "handles": cfg.handles, "nkeys": cfg.nkeys, "fixup_first": cfg.fixup_first, "stale_temp": cfg.stale_temp},
         "history": hist.iter().map(|s| s.to_json()).collect::<Vec<_>>(),
     })
 }
@@ -831,6 +848,7 @@ fn parse_cfg(v: &Value) -> Config {
         handles: v["handles"].as_u64().unwrap() as usize,
         nkeys: v["nkeys"].as_u64().unwrap() as usize,
         fixup_first: v["fixup_first"].as_bool().unwrap_or(false),
+        stale_temp: v["stale_temp"].as_bool().unwrap_or(false),
     }
 }
 
@@ -913,7 +931,7 @@ fn fault_section(shard: Shard, rep: &mut Report) {
     use std::sync::{Arc, Mutex};
     let mut no = 0u64;
     for front in [FrontKind::Plain, FrontKind::Sharded(2)] {
-        let cfg = Config { front, cap: CapMode::Roomy, handles: 1, nkeys: 2, fixup_first: false };
+        let cfg = Config { front, cap: CapMode::Roomy, handles: 1, nkeys: 2, fixup_first: false, stale_temp: false };
         let alpha: Vec<Sym> = alphabet(&cfg).into_iter().filter(|s| !s.fire).collect();
         for first in alpha.iter().filter(|s| s.is_write()) {
             for second in &alpha {
@@ -979,29 +997,33 @@ pub fn configs(tier: Tier) -> Vec<(Config, usize)> {
     // the key subject to the distinctness fix-up, alone and with one neighbour, on 3 and 4 shards (its secondary shard
     // is a function of the hashes alone, whatever the load estimates say)
     for front in [FrontKind::Sharded(3), FrontKind::Sharded(4)] {
-        v.push((Config { front, cap: CapMode::Roomy, handles: 1, nkeys: 1, fixup_first: true }, if q { 4 } else { 6 }));
-        v.push((Config { front, cap: CapMode::Tight, handles: 1, nkeys: 2, fixup_first: true }, if q { 3 } else { 5 }));
+        v.push((Config { front, cap: CapMode::Roomy, handles: 1, nkeys: 1, fixup_first: true, stale_temp: false }, if q { 4 } else { 6 }));
+        v.push((Config { front, cap: CapMode::Tight, handles: 1, nkeys: 2, fixup_first: true, stale_temp: false }, if q { 3 } else { 5 }));
     }
     // one directory through the generic builder entry point and through an explicitly sharded handle, with a capacity
     // below the shard count
     for n in [3usize, 4] {
-        v.push((Config { front: FrontKind::Generic(n), cap: CapMode::Tiny, handles: 2, nkeys: 2, fixup_first: false }, if q { 3 } else { 5 }));
-        v.push((Config { front: FrontKind::Generic(n), cap: CapMode::Roomy, handles: 2, nkeys: 2, fixup_first: false }, if q { 3 } else { 4 }));
+        v.push((Config { front: FrontKind::Generic(n), cap: CapMode::Tiny, handles: 2, nkeys: 2, fixup_first: false, stale_temp: false }, if q { 3 } else { 5 }));
+        v.push((Config { front: FrontKind::Generic(n), cap: CapMode::Roomy, handles: 2, nkeys: 2, fixup_first: false, stale_temp: false }, if q { 3 } else { 4 }));
+    }
+    // stale temp files named like the keys
+    for front in [FrontKind::Plain, FrontKind::Stack] {
+        v.push((Config { front, cap: CapMode::Tight, handles: 1, nkeys: 2, fixup_first: false, stale_temp: true }, if q { 3 } else { 5 }));
     }
     // total capacities that the shard count does not divide
     for front in [FrontKind::Sharded(3), FrontKind::Sharded(4)] {
-        v.push((Config { front, cap: CapMode::Odd, handles: 1, nkeys: 4, fixup_first: false }, if q { 4 } else { 6 }));
+        v.push((Config { front, cap: CapMode::Odd, handles: 1, nkeys: 4, fixup_first: false, stale_temp: false }, if q { 4 } else { 6 }));
     }
     for front in fronts {
         for cap in [CapMode::Tight, CapMode::Roomy] {
             if q {
                 let stack = front.is_stack();
-                v.push((Config { front, cap, handles: 1, nkeys: if stack { 2 } else { 3 }, fixup_first: false }, if stack { 3 } else { 4 }));
-                v.push((Config { front, cap, handles: 2, nkeys: 2, fixup_first: false }, if stack { 2 } else { 3 }));
+                v.push((Config { front, cap, handles: 1, nkeys: if stack { 2 } else { 3 }, fixup_first: false, stale_temp: false }, if stack { 3 } else { 4 }));
+                v.push((Config { front, cap, handles: 2, nkeys: 2, fixup_first: false, stale_temp: false }, if stack { 2 } else { 3 }));
             } else {
-                v.push((Config { front, cap, handles: 1, nkeys: 4, fixup_first: false }, 5));
-                v.push((Config { front, cap, handles: 2, nkeys: 3, fixup_first: false }, 4));
-                v.push((Config { front, cap, handles: 3, nkeys: 2, fixup_first: false }, 4));
+                v.push((Config { front, cap, handles: 1, nkeys: 4, fixup_first: false, stale_temp: false }, 5));
+                v.push((Config { front, cap, handles: 2, nkeys: 3, fixup_first: false, stale_temp: false }, 4));
+                v.push((Config { front, cap, handles: 3, nkeys: 2, fixup_first: false, stale_temp: false }, 4));
             }
         }
     }
@@ -1016,7 +1038,7 @@ pub fn run(tier: Tier, shard: Shard, rep: &mut Report) {
         {set k A|B, put k C, get k, touch k, (stacked) ensure k D, (sharded) the handle's load estimates left in one of four patterns by peers} x environment answers {trigger fires / does not, random other shard \
         in {0, 1, n-1}}; capacities 'tight' (2 per directory: evictions all the time), 'roomy' (2^40) and 'odd' (2 x shards + 1 on 3 and 4 \
         shards: a total the shard count does not divide; each directory holds ceil(total/shards) files; these searches start from a \
-        shard that is exactly full). States are deduplicated on a \
+        shard that is exactly full); plain and stacked also starting with two-hour-old temp files named like the keys in every .kismet_temp. States are deduplicated on a \
         canonical key (per directory: name, value, mtime rank with ties, read mark; per handle: load estimates) inside each worker; \
         every step is checked against a map model in which an entry may vanish only as a Second Chance victim of a maintenance whose \
         opendir and unlinks are in the call trace (decided by brute force over tie orders), plus: no key in two directories or outside \
